@@ -4,7 +4,7 @@ from . import _secp as S
 ID = "C05"
 EXTRA_TARGETS = ["Proofs/EcdsaRefine.vo", "Proofs/EcdsaAbstractInst.vo"]
 LEVEL = "partial"
-RULE = ("CROSS PRODUCT every way a signature is produced (deterministic x hash x reverse_k, sign_message, caller nonce x hash, digest signing x hash, randomised x hash x reverse_k: 13 ways) x every verification entry point (ECDSA::verify_digest, verify_hashbuf, Signature::verify_message, PublicKey::verify_message, is_valid_message) with the other-hash clause for every pair and same / other message / other key rotating (all four in the thorough tier); every public function of src/ecdsa/*.rs, PrivateKey::sign_message, Signature::verify_message, PublicKey::verify_message / "
+RULE = ("messages a text normalisation would change (UTF-8 BOM, leading/trailing blank, tab, LF, CR LF, NUL, letter case, NFC/NFD) with their normalised variants through every signing entry point (exact RFC 6979 value) and every verifier (M accepted, variant refused, both directions); CROSS PRODUCT every way a signature is produced (deterministic x hash x reverse_k, sign_message, caller nonce x hash, digest signing x hash, randomised x hash x reverse_k: 13 ways) x every verification entry point (ECDSA::verify_digest, verify_hashbuf, Signature::verify_message, PublicKey::verify_message, is_valid_message) with the other-hash clause for every pair and same / other message / other key rotating (all four in the thorough tier); every public function of src/ecdsa/*.rs, PrivateKey::sign_message, Signature::verify_message, PublicKey::verify_message / "
         "is_valid_message and the r/s accessors is reached by some op; every hash x reverse_k x signing entry point on the empty and "
         "the one-byte message; messages in all length bands up to 1000; signer / nonce-key compression markers in all four "
         "combinations; signature objects with and without recovery info through the verifier; private_key_from_signature_k for small "
@@ -103,13 +103,57 @@ def cross_cases(A, rng, thorough):
                 "msg": [H(d), c2, m + "01", h],
                 "key": [H(N - d if idx % 2 else rkey(rng)), c2, m, h],
             }
-            pick = ["hash"] + (["same", "msg", "key"] if thorough else ([["same", "msg", "key"][(idx // 2) % 3]] if idx % 2 == 0 else []))
+            pick = ["hash"] + (["same", "msg", "key"] if thorough else ([["same", "msg", "key"][(idx // 3) % 3]] if idx % 3 == 0 else []))
             for cl in pick:
                 A("ecdsa.cross", base + clauses[cl])
             idx += 1
     A("ecdsa.cross", ["det", H(0), 1, "00", "sha256", 0, "00", "vd", H(5), 1, "00", "sha256"])
     A("ecdsa.cross", ["k", H(5), 1, "00", "sha256", 0, H(0), "sm", H(5), 1, "00", "sha256"])
     A("ecdsa.cross", ["det", H(5), 1, "00", "sha256", 0, "00", "pv", H(N), 1, "00", "sha256"])
+
+
+# messages a "helpful" text normalisation would change, each with its normalised variant: BOM, leading / trailing white space,
+# CR LF, trailing NUL, letter case, NFC vs NFD.  Signing and verifying are about the EXACT bytes.
+NORM_PAIRS = [(b"\xef\xbb\xbfhello", b"hello"), (b" hello", b"hello"), (b"hello ", b"hello"), (b"\thello", b"hello"),
+              (b"hello\n", b"hello"), (b"hello\r\n", b"hello\n"), (b"hello\x00", b"hello"), (b"Hello", b"hello"),
+              (b"caf\xc3\xa9", b"cafe\xcc\x81"), (b"\xef\xbb\xbf", b"")]
+
+
+def normalisation_cases(A, rng, thorough):
+    H = S.h32
+    d = 0x2222222222222222222222222222222222222222222222222222222222222222
+    j = 0
+    for (m1, m2) in NORM_PAIRS:
+        # every signing entry point on the exact bytes (the spec column is RFC 6979 over the hash of exactly these bytes)
+        A("ecdsa.sign_message", [H(d), j % 2, m1.hex()])
+        A("ecdsa.sign_det", [H(d), j % 2, m1.hex(), HASHES[j % 2], (j // 2) % 2])
+        if thorough or j < 2:
+            A("ecdsa.sign_k", [H(d), 1, H(rkey(rng)), m1.hex(), HASHES[j % 2]])
+            A("ecdsa.sign_random", [H(d), 1, m1.hex(), HASHES[j % 2], j % 2, "r:05:32"])
+        # every verifier: a signature over M verifies for M and not for its normalised variant, and vice versa; the production
+        # way rotates (quick) / all 13 ways, both directions and the positive control (thorough); for the byte order mark every
+        # verifier meets sign_message and the deterministic signer in both roles
+        def X(signer, h, rk, vf, a, b):
+            hv = h if vf in ("vd", "vh") else "sha256"
+            if signer != "msg" and vf not in ("vd", "vh"):
+                h = "sha256"                                                             # so that only the message differs
+            A("ecdsa.cross", [signer, H(d), 1, a.hex(), h, rk, way_aux(rng, signer), vf, H(d), 0, b.hex(), hv])
+        for vi, vf in enumerate(VERIFIERS):
+            if thorough:
+                for (signer, h, rk) in (WAYS if j < 2 else WAYS[(j % 2)::2]):
+                    X(signer, h, rk, vf, m1, m2); X(signer, h, rk, vf, m2, m1)
+                    if j < 2:
+                        X(signer, h, rk, vf, m1, m1)
+                continue
+            signer, h, rk = WAYS[(j * 5 + vi * 3) % len(WAYS)]
+            a, b = (m1, m2) if (j + vi) % 2 == 0 else (m2, m1)
+            X(signer, h, rk, vf, a, b)
+            if j == 0:
+                for (sg, hh) in (("msg", "sha256"), ("det", "sha256d" if vf in ("vd", "vh") else "sha256")):
+                    X(sg, hh, 0, vf, m1, m2); X(sg, hh, 0, vf, m2, m1); X(sg, hh, 0, vf, m1, m1)
+        if j == 9 and not thorough:
+            X("msg", "sha256", 0, "pm", m1, m1); X("det", "sha256", 0, "pm", m1, m2); X("msg", "sha256", 0, "sm", m1, m2)
+        j += 1
 
 
 def audit_cases(A, rng, thorough):
@@ -400,6 +444,7 @@ def generate(rng, tier):
     leading_zero_cases(A, rng, thorough)
     audit_cases(A, rng, thorough)
     cross_cases(A, rng, thorough)
+    normalisation_cases(A, rng, thorough)
 
     # ---------------------------------------------------------------- ECDH
     for (a, b) in [(1, 1), (1, 2), (2, N - 1), (N - 1, N - 1), (N - 2, 3), (2 ** 255, N // 2)]:
